@@ -163,6 +163,28 @@ def run(ctx):
                     ok = check_copy(ctx, env, base, t2, "setstate(getstate)", followup, fn, kind, impl, info, rebuild(env, calls))
                 except Exception as e:  # noqa
                     ctx.oracle_failure("%s:setstate(getstate):%s:raises-%s" % (impl, kind, type(e).__name__), "%s%s/%s setstate(getstate) raised %r" % (fn, kind, impl, e), info)
+                # ---- __setstate__ on an object that is in use: the new state replaces the old one completely
+                try:
+                    tk = {"Bucket": "BTree", "Set": "TreeSet"}.get(kind, kind)
+                    envt = TreeEnv(fn, tk, impl, mode)
+                    envt.km, envt.vm = env.km, env.vm
+                    with envt.sized(2, 2):
+                        live = envt.new()
+                        for k in range(1, 7):
+                            envt.call(live, ("add", k) if envt.setlike else ("set", k, 1))
+                        stx = rebuild(env, calls).__getstate__()
+                        if kind in ("Bucket", "Set"):
+                            leaf = live._firstbucket            # a leaf that has a successor
+                            if stx is not None:
+                                leaf.__setstate__(stx)
+                                if typed_repr(leaf.__getstate__()) != typed_repr(stx):
+                                    ctx.oracle_failure("%s:setstate-on-live-object:%s:state-differs" % (impl, kind),
+                                                       "%s%s/%s: a leaf in use (with a successor) given the state %s reports %s" % (fn, kind, impl, typed_repr(stx)[:200], typed_repr(leaf.__getstate__())[:200]), info)
+                        else:
+                            live.__setstate__(stx)
+                            check_copy(ctx, env, base, live, "setstate-on-live-object", [], fn, kind, impl, info, rebuild(env, calls))
+                except Exception as e:  # noqa
+                    ctx.oracle_failure("%s:setstate-on-live-object:%s:raises-%s" % (impl, kind, type(e).__name__), "%s%s/%s __setstate__ on a container in use raised %r" % (fn, kind, impl, e), info)
                 # ---- pickle, all protocols
                 dumps[impl] = {}
                 for proto in range(6):
